@@ -83,7 +83,8 @@ def run_hist(seed, n):
     for _ in range(n):
         r = rnd.random()
         if r < 0.8:
-            kind = rnd.choices(["genuine", "replay", "mac", "body", "wrongkey", "unknown"], weights=[6, 2, 1, 1, 1, 1])[0]
+            # "own": a frame that carries our own (sending) address as source - we are no sender of our own table: unknown like any other
+            kind = rnd.choices(["genuine", "replay", "mac", "body", "wrongkey", "unknown", "own"], weights=[6, 2, 1, 1, 1, 1, 1])[0]
             si = rnd.randrange(3)
             if kind == "replay" and not old:
                 kind = "genuine"
@@ -96,10 +97,12 @@ def run_hist(seed, n):
                     cur = ds._individual_address_table[IndividualAddress(SENDERS[si])]
                     nxt = [v for v in pool if v > cur]
                     seq = nxt[0] if nxt else seq
-                src = UNKNOWN if kind == "unknown" else SENDERS[si]
+                src = UNKNOWN if kind == "unknown" else "5.0.1" if kind == "own" else SENDERS[si]
+                if kind == "own":
+                    seq = MAX48 - 1 if rnd.random() < 0.5 else seq
                 raw = frame(src, "0/4/0", seq, bytes(16) if kind == "wrongkey" else KEY,
                             corrupt=kind if kind in ("mac", "body") else None)
-                ok = 1 if kind in ("genuine", "replay", "unknown") else 0
+                ok = 1 if kind in ("genuine", "replay", "unknown", "own") else 0
                 if kind == "genuine":
                     old.append((si, seq, raw))
             cemi = CEMIFrame.from_knx(raw)
@@ -108,7 +111,7 @@ def run_hist(seed, n):
                 d = 1
             except DataSecureError:
                 d = 0
-            s = 0 if kind == "unknown" else si + 1
+            s = 0 if kind in ("unknown", "own") else si + 1
             lv = -1 if s == 0 else rank[ds._individual_address_table[IndividualAddress(SENDERS[si])]]
             ev.append({"ev": "recv", "s": s, "n": rank[seq], "ok": ok, "delivered": d, "lv": lv, "kind": kind, "res": "", "seq": str(seq)})
         else:
